@@ -128,6 +128,16 @@ CLAIMS["C06"] = claim("lean-model + harness fo (TTL(ctx) recorded at every backe
     "context.Context semantics (values, cancellation) is the Go standard library's.",
     "Lean 4 proof (arithmetic on the regenerated kernel + machine step lemmas) + model/implementation correspondence", "DESIGN.md §6 C06")
 
+CLAIMS["C16"] = claim("lean-model (footprint table) + harness race (Go race detector in child processes)",
+    "PARTIAL. Lean 4 theorems decided by kernel evaluation over the complete footprint table of the public API (159 accesses with their "
+    "guards): every unprotected conflicting pair is one of the two known findings (in-place expiry write of ExpireAll; plain struct "
+    "copies vs the atomic LRU/LFU counter), every other location (shard maps, sync.Map, key locks and lock records, label index, "
+    "deleters, lastRun, expirationsSet) is disciplined, and the table is race free once the two repairs are applied. Implementation side: "
+    "all pairs (quick: a seeded two thirds) of a 13-op backend and a 10-op frontend catalogue run concurrently under the race detector; "
+    "every report must be one the model predicts (else VIOLATION); predicted ones are listed as known findings.",
+    "Partial: the table is hand-written and tied to the code only by the detector, which sees only executions that happen; 'discipline implies DRF' is assumed.",
+    "Lean 4 proof (decide +kernel over the footprint table) + race-detector correspondence", "DESIGN.md §6 C16")
+
 NOT_APPLICABLE = {}
-for _p in ["C08","C16"]:
+for _p in ["C08"]:
     NOT_APPLICABLE[_p] = "check under construction in this round (model slice or theorem not yet committed); will be claimed when its check exists"
